@@ -3,6 +3,8 @@ use crate::core::Cx;
 pub mod c13;
 pub mod c14;
 pub mod c15;
+pub mod c16;
+pub mod c17;
 pub mod c20;
 
 pub fn run(id: &str, cx: &mut Cx) -> bool {
@@ -10,6 +12,8 @@ pub fn run(id: &str, cx: &mut Cx) -> bool {
         "C13" => c13::run(cx),
         "C14" => c14::run(cx),
         "C15" => c15::run(cx),
+        "C16" => c16::run(cx),
+        "C17" => c17::run(cx),
         "C20" => c20::run(cx),
         _ => return false,
     }
